@@ -121,6 +121,14 @@ def orMask (ps : List Nat) : Nat := ps.foldl (· ||| ·) 0
 def newUser (admin : Bool) (grants : List (Path × List Nat)) : User :=
   { admin := admin, privs := grants.foldl (fun m g => (clean g.1, orMask g.2) :: m) [] }
 
+/-- What the auth service knows of a user: the arguments it passes to `auth.NewUser`. -/
+structure Account where
+  admin : Bool := false
+  grants : List (Path × List Nat) := []
+deriving Repr, DecidableEq
+
+def Account.user (a : Account) : User := newUser a.admin a.grants
+
 /-- Go map lookup `p, ok := u.privileges[resource]`. -/
 def lookup (m : List (Path × Nat)) (k : Path) : Option Nat :=
   match m.find? (fun e => e.1 = k) with
@@ -198,9 +206,9 @@ def trimPrefix (s pre : List Char) : List Char :=
   if pre.isPrefixOf s then s.drop pre.length else s
 
 /-- `authorizeRequest` (true = `nil` error). Any error, also `invalid`, is a refusal. -/
-def authorizeRequest (method : List Char) (urlPath : Path) (u : User) : Bool :=
+def authorizeRequest (method : List Char) (urlPath : Path) (u : Account) : Bool :=
   match requiredPrivilege method with
-  | .priv rp => authorizeAction u (apiResource (trimPrefix urlPath Gen.basePath)) rp = .allow
+  | .priv rp => authorizeAction u.user (apiResource (trimPrefix urlPath Gen.basePath)) rp = .allow
   | _ => false
 
 /-- What `jwt.Parse` + the claim checks of `authenticate` see of a bearer token (oracle). -/
@@ -251,21 +259,21 @@ def parseCredentials (a : ReqAuth) : Option Creds :=
 
 /-- The fake `auth.Interface` of the harness: a finite table. -/
 structure AuthSvc where
-  users : List (List Char × List Char × User) := []     -- name, password, user
-  subs : List (List Char × User) := []                  -- subscription token, user
+  users : List (List Char × List Char × Account) := []     -- name, password, account
+  subs : List (List Char × Account) := []                  -- subscription token, account
 deriving Repr
 
-def AuthSvc.authenticate (s : AuthSvc) (name pw : List Char) : Option User :=
+def AuthSvc.authenticate (s : AuthSvc) (name pw : List Char) : Option Account :=
   match s.users.find? (fun e => e.1 = name) with
   | some (_, p, u) => if p = pw then some u else none
   | none => none
 
-def AuthSvc.user (s : AuthSvc) (name : List Char) : Option User :=
+def AuthSvc.user (s : AuthSvc) (name : List Char) : Option Account :=
   match s.users.find? (fun e => e.1 = name) with
   | some (_, _, u) => some u
   | none => none
 
-def AuthSvc.subscriptionUser (s : AuthSvc) (tok : List Char) : Option User :=
+def AuthSvc.subscriptionUser (s : AuthSvc) (tok : List Char) : Option Account :=
   match s.subs.find? (fun e => e.1 = tok) with
   | some (_, u) => some u
   | none => none
@@ -275,7 +283,7 @@ inner handler runs as `user`; `wroteError` = an error response had ALREADY been 
 handler was called (only the `default:` clause without `return` does that). -/
 inductive AuthN where
   | rejected                                   -- 401, inner not called
-  | inner (user : User) (wroteError : Bool)
+  | inner (user : Account) (wroteError : Bool)
 deriving Repr, DecidableEq
 
 /-- `authenticate` (the part before `inner(w, r, user)`). -/
@@ -308,11 +316,11 @@ def authenticateCreds (svc : AuthSvc) (c : Creds) : AuthN :=
     | none => .rejected
   | .other =>
     -- `default: HttpError(w, "unsupported authentication", …)` — and then? The regenerated flag says whether
-    -- the clause returns. Today it does not: `inner(w, r, user)` runs with the zero `auth.User`.
+    -- the clause returns. Today it does not: `inner(w, r, user)` runs with the zero `auth.User` (not admin, no grants).
     if Gen.authDefaultReturns then .rejected else .inner {} true
 
 def authenticate (requireAuth : Bool) (svc : AuthSvc) (a : ReqAuth) : AuthN :=
-  if !requireAuth then .inner { admin := true } false          -- auth.AdminUser
+  if !requireAuth then .inner { admin := true } false          -- auth.AdminUser = NewUser("ADMIN_USER", nil, true, nil)
   else match parseCredentials a with
     | none => .rejected
     | some c => authenticateCreds svc c
@@ -381,7 +389,7 @@ structure HttpOut where
   status : Nat
   served : Bool := false        -- a `recorder`/`ping`/`optionsWrite` handler ran
   wrote : Bool := false         -- PointsWriter.WritePoints was called
-  user : Option User := none    -- the user the LAST authenticate() stage let through (ghost, not observable)
+  user : Option Account := none -- the user the LAST authenticate() stage let through (ghost, not observable)
 deriving Repr, DecidableEq
 
 structure Cfg where
@@ -391,9 +399,9 @@ structure Cfg where
 deriving Repr
 
 /-- `serveWriteLine` after the body was parsed. -/
-def serveWriteLine (req : Req) (u : User) : HttpOut :=
+def serveWriteLine (req : Req) (u : Account) : HttpOut :=
   if req.db = [] then { status := 400, user := some u }
-  else if authorizeAction u (databaseResource req.db) writePriv ≠ .allow then { status := 401, user := some u }
+  else if authorizeAction u.user (databaseResource req.db) writePriv ≠ .allow then { status := 401, user := some u }
   else { status := 204, wrote := true, user := some u }
 
 /-- `Handler.ServeHTTP` → mux → cors → authenticate → authorize → route handler. `fuel` bounds the
